@@ -125,6 +125,15 @@ CHECKS = {
         'Formula/Matrix graders with each comparer on member/non-member formulas; the answer_shape_mismatch policy grid.',
    note=PROOF_NOTE + ' Partial: np.linalg.lstsq and the floating-point norms are not modelled (the exact squared least-squares residual is computed by the harness; a relative guard band of 1e-6 around the tolerance boundary is skipped and counted); LinearComparer is modelled for real scalar samples. Finding F9 (between_comparer raised on real values of complex type) was repaired in /repo.',
    technique='Lean 4 proof (floor/mod arithmetic for circular congruence, linearity of matrix-vector products, squared-norm decision lemmas, max-selection spec) + correspondence + exact Fraction oracle', design='§6 C16'),
+ 'C14': dict(
+   text='MathArray.__add__/__radd__/__sub__/__rsub__/__mul__/__rmul__/__truediv__/__rtruediv__/__pow__/__rpow__ (with the number-zero, one-element-array and same-shape rules, np.dot shape rule with the 1x1 collapse, tensor refusal, square + integer-like exponent test, negative-power switch, inverse for negative powers, singular refusal) '
+        'and the triple-vector rule of eval_product modelled over exact Gaussian rationals for arbitrary shapes; proved for all shapes and entries: equal shapes add elementwise; arrays of different shapes are never added (no broadcasting) and a successful sum has an operand\'s shape; a nonzero scalar plus an array is an error on either side, 0 is neutral; '
+        'products of arrays with at most two axes exist exactly when the inner dimensions agree and then have the dot / matrix-vector / vector-matrix / matrix-matrix shape (one-element results become numbers), tensors are refused; division by an array is an error; '
+        'vectors, tensors and non-square matrices cannot be raised to powers, matrix powers need an integer-like exponent (complex-typed and array exponents refused), negative powers are refused while disabled and otherwise are powers of the inverse with singular matrices refused, non-negative powers are repeated products from the identity; a chain u*v*w of vectors is refused. '
+        'Tie: all ordered operand pairs of a shape lattice (numbers, vectors 1-4, m x n matrices, a 3-axis tensor; real and complex integer entries; singular and non-singular) x five operators in direct, reflected and in-place form x exponent kinds (incl. floats within 1e-5 of an integer), compared with the model for outcome class, shape and exact values; '
+        'formula strings with array literals / array variables / chained products through evaluator(); MatrixGrader with negative_powers=False; independent numpy reference for products and powers.',
+   note=PROOF_NOTE + ' Partial: np.linalg.matrix_power / inverse numerics are compared within 1e-9 (the model\'s exact Gauss-Jordan inverse is tied by comparison, its correctness is not a theorem); scalar powers with non-integer exponents are outside the model.',
+   technique='Lean 4 proof (shape decision theorems for every operator, for all shapes) + exhaustive shape-lattice correspondence + numpy reference oracle', design='§6 C14'),
  'C11': dict(
    text='ItemGrader.__call__ / AbstractGrader.__call__ modelled as a state machine over the grader object (stored answers, inferring flag, log flag, debug log) with validation, text check and grading as parameters; proved by induction over ANY call history '
         '(including calls that raise in validation, in the input check or in grading): the next call returns what a freshly constructed grader returns for the current expect value or the last successfully supplied one; '
